@@ -567,6 +567,21 @@ def fam_plain(rng, idx):
     return b.finish("plain", idx, top)
 
 
+def witness_f320():
+    """Witness of finding F320: `container c { presence; leaf-list ll { type string; max-elements 1; default "a"; default "b"; } }`
+    and the instance with just the empty container.  More default values than max-elements: libyang (without fixes/F320.diff)
+    compiles the module, creates both implicit instances and rejects every `c` without explicit entries (NoMax).
+    Returns (schema, forest)."""
+    import random
+    b = _Fam(random.Random(320))
+    ll = b.ll()
+    ll.ty, ll.userord, ll.min, ll.max, ll.dflts = Ty("string"), False, 0, 1, [b"a", b"b"]
+    c = b.pc([ll])
+    s = XSchema("vf320", [c])
+    s.family = "f320-witness"
+    return s, [DN(c)]
+
+
 FAMILY_PREFIX = {"np-nested-default": "fa", "mand-choice-in-case": "fb", "default-case-nested": "fc", "np-chain-mandatory": "fd",
                  "minmax-in-case": "fe", "unique-paths": "fu", "plain": "fp"}
 FAMILIES = [("np-nested-default", fam_np_nested_default), ("mand-choice-in-case", fam_mand_choice_in_case),
